@@ -138,7 +138,6 @@ theorem inv_set {w : WM} {iss : List Handle} (hi : Inv ⟨w, iss⟩) (p : Pool) 
     live := ⟨hi.live.live_in, hi.live.row_live⟩
     pool := hp
     shared := fun a ha => (hi.shared a ha).ext he
-    closed := hi.closed
     depsB := hi.depsB
     locsCover := hi.locsCover
     bufLe := hi.bufLe
@@ -261,7 +260,7 @@ theorem inv_push {c : CW} (hi : Inv c) (t : Nat) (cmd : Cmd) (hcr : crH cmd = no
   { tinv := ?_, pendNodup := ?_, rows := (pushCmd_step hi.rows t cmd 0).ok, keys := (pushCmd_step hi.rows t cmd 0).keys hi.keys,
     live := liveInv_of_same hi.live (fun _ => rfl) (fun _ => rfl),
     pool := ⟨hi.pool.vals_nodup, hi.pool.insts_nodup, hi.pool.inst_lt, hi.pool.inst_sid⟩,
-    shared := hi.shared, closed := hi.closed, depsB := hi.depsB, locsCover := hi.locsCover,
+    shared := hi.shared, depsB := hi.depsB, locsCover := hi.locsCover,
     bufLe := ?_, bufLen := ?_, bufEmpty := ?_, bufKnown := ?_, markedKnown := ?_, markedRange := hi.markedRange,
     markedSorted := hi.markedSorted }
   · rcases hi.tinv with ⟨g, tinv, hiss, hpend⟩
